@@ -53,7 +53,7 @@ def _configs(tier):
 
 
 @harness("soil_evaporation", modules=["aquacrop.solution.soil_evaporation", "aquacrop.solution.evap_layer_water_content"],
-         props=["C01", "C03", "C04", "C12", "C16", "C20"], configs=_configs, timeout_ms=10000, abstract_nl=True,
+         props=["C01", "C03", "C04", "C12", "C16", "C20"], configs=_configs, timeout_ms=10000, abstract_nl=True, exact_fallback=True,
          goals=["stage1", "stage2", "ponded-evaporation", "layer-expands"])
 def h_evap(ctx, cfg):
     soil, base = build_profile(cfg["layers"], cfg["dzs"])
